@@ -326,7 +326,8 @@ def _remove_ignored(el: etree.Element):
 
 
 def _id_of_target(url):
-    match = re.match(r"^url[(]#([\w-]+)[)]$", url)
+    # an id is an XML name: besides word characters and "-" it may contain e.g. "." or ":"
+    match = re.match(r"^url[(]#([^()\s]+)[)]$", url)
     if not match:
         raise ValueError(f'Unrecognized url "{url}"')
     return match.group(1)
